@@ -1,11 +1,17 @@
-(* Proofs/PathIdxFloat.v — binary64 (PrimFloat, bit-exact): the cumulative
-   fractions need not reach 1, so the search loop of the current code falls
-   through for T just below 1.  Witness: segment lengths 9, 12, 5, 1
-   (fractions 1/3, 4/9, 5/27, 1/27 rounded; their running left-to-right sum,
-   which is the loop's accumulator, ends at 1 - 2^-52 = 0x1.ffffffffffffep-1,
-   below T = 1 - 2^-53). *)
+(* Proofs/PathIdxFloat.v — binary64 (PrimFloat, bit-exact).
+
+   Historical witnesses against the UNREPAIRED code (model flags cl = false,
+   fb = false):
+   * the cumulative fractions need not reach 1, so the search loop falls
+     through for T just below 1.  Lengths 9, 12, 5, 1 (fractions 1/3, 4/9, 5/27,
+     1/27 rounded; their running left-to-right sum, the loop's accumulator, ends
+     at 1 - 2^-52 = 0x1.ffffffffffffep-1, below T = 1 - 2^-53);
+   * the quotient (T - T0)/seg_length exceeds 1 when T is a rounded cumulative
+     boundary.  Lengths 1, 2, 2 at T = 0.6000000000000001 (= fl(0.2 + 0.4)).
+   And the full theorems for the REPAIRED code (cl = true, fb = true), for all
+   binary64 inputs. *)
 From Coq Require Import ZArith List Bool PrimFloat.
-From SVP Require Import Base.Num Base.FloatK Model.PathIdx Proofs.PathIdxGen.
+From SVP Require Import Base.Num Base.FloatK Model.PathIdx Proofs.PathIdxGen Proofs.PathIdxFloatLaws.
 Import ListNotations.
 
 Definition falloff_tl : list (bool * float) :=
@@ -20,32 +26,67 @@ Lemma falloff_domain comp :
   /\ total NumF comp falloff_tl = 0x1.bp+4%float.
 Proof. destruct comp; vm_compute; repeat split. Qed.
 
-Lemma falloff_witness comp :
-  T2t NumF comp false falloff_tl falloff_T = Err EBug
+Lemma falloff_witness comp cl :
+  T2t NumF comp cl false falloff_tl falloff_T = Err EBug
   /\ point_search NumF comp false falloff_tl falloff_T = Err ERuntime
   /\ cum NumF false (fractions NumF comp falloff_tl) 4 = 0x1.ffffffffffffep-1%float.
-Proof. destruct comp; vm_compute; repeat split. Qed.
+Proof. destruct comp, cl; vm_compute; repeat split. Qed.
 
 (* the repaired search returns the end of the last segment there *)
-Lemma falloff_fixed comp :
-  T2t NumF comp true falloff_tl falloff_T = Ok (3%Z, 1%float)
+Lemma falloff_fixed comp cl :
+  T2t NumF comp cl true falloff_tl falloff_T = Ok (3%Z, 1%float)
   /\ point_search NumF comp true falloff_tl falloff_T = Ok (3%Z, 1%float).
-Proof. destruct comp; vm_compute; repeat split. Qed.
+Proof. destruct comp, cl; vm_compute; repeat split. Qed.
+(* ... of the last segment of NONZERO length: with two zero-length segments appended *)
+Lemma falloff_fixed_trailing_zeros comp cl :
+  T2t NumF comp cl true (falloff_tl ++ [(true, 0%float); (false, 0%float)]) falloff_T
+  = Ok (3%Z, 1%float).
+Proof. destruct comp, cl; vm_compute; reflexivity. Qed.
 
 (* hence the real-number specification C05_T2t_spec is FALSE in binary64 for
-   the current code *)
+   the unrepaired code *)
 Lemma T2t_total_float_refuted :
-  ~ (forall comp tl T,
+  ~ (forall comp cl tl T,
         forallb (fun bx => ltb NumF (zero NumF) (snd bx)) tl = true ->
         ltb NumF (zero NumF) T = true -> ltb NumF T (one NumF) = true ->
-        exists kt, T2t NumF comp false tl T = Ok kt).
+        exists kt, T2t NumF comp cl false tl T = Ok kt).
 Proof.
   intros H. destruct (falloff_domain true) as [H1 [H2 [H3 _]]].
-  destruct (H true falloff_tl falloff_T H1 H2 H3) as [kt E].
-  destruct (falloff_witness true) as [W _]. rewrite W in E. discriminate.
+  destruct (H true false falloff_tl falloff_T H1 H2 H3) as [kt E].
+  destruct (falloff_witness true false) as [W _]. rewrite W in E. discriminate.
 Qed.
 
-(* while the repaired one is total on [0,1] for all binary64 inputs *)
-Lemma T2t_fixed_total_float fs T : in01 NumF T = true ->
-  (exists kt, T2t_fixed NumF fs T = Ok kt) \/ T2t_fixed NumF fs T = Err EZeroDiv.
-Proof. apply T2t_fixed_total. Qed.
+(* t above 1 *)
+Definition above1_tl : list (bool * float) :=
+  [(true, 0x1p+0%float); (true, 0x1p+1%float); (true, 0x1p+1%float)].
+Definition above1_T : float := 0x1.3333333333334p-1%float.       (* 0.6000000000000001 *)
+Lemma above1_witness comp fb :
+  T2t NumF comp false fb above1_tl above1_T = Ok (1%Z, 0x1.0000000000001p+0%float)
+  /\ ltb NumF (one NumF) 0x1.0000000000001p+0%float = true
+  /\ in01 NumF above1_T = true
+  /\ point_search NumF comp fb above1_tl above1_T = Ok (1%Z, 1%float).
+Proof. destruct comp, fb; vm_compute; repeat split. Qed.
+Lemma above1_fixed comp fb :
+  T2t NumF comp true fb above1_tl above1_T = Ok (1%Z, 1%float).
+Proof. destruct comp, fb; vm_compute; reflexivity. Qed.
+Lemma T2t_le_1_float_refuted :
+  ~ (forall comp fb tl T k t, in01 NumF T = true ->
+        T2t NumF comp false fb tl T = Ok (k, t) -> ltb NumF (one NumF) t = false).
+Proof.
+  intros H. destruct (above1_witness true false) as [W [Hgt [H01 _]]].
+  specialize (H true false above1_tl above1_T _ _ H01 W). congruence.
+Qed.
+
+(* ---------- the repaired code, all binary64 inputs ---------- *)
+(* total on [0,1]: neither BugException nor ZeroDivisionError *)
+Theorem T2t_repaired_total_float cl fs T : in01 NumF T = true ->
+  exists kt, T2t_fr NumF cl true fs T = Ok kt.
+Proof. apply (T2t_repaired_total NumF float_LawA float_LawB). Qed.
+(* the returned parameter is never above 1 *)
+Theorem T2t_clamped_le_1_float fb fs T k t :
+  T2t_fr NumF true fb fs T = Ok (k, t) -> PrimFloat.ltb 1%float t = false.
+Proof. apply (T2t_clamped_le_1 NumF float_ltb_1_1 float_ltb_1_0). Qed.
+(* the weaker, law-free form (kept: closed under the global context) *)
+Lemma T2t_fb_total_float cl fs T : in01 NumF T = true ->
+  (exists kt, T2t_fr NumF cl true fs T = Ok kt) \/ T2t_fr NumF cl true fs T = Err EZeroDiv.
+Proof. apply T2t_fb_total. Qed.
